@@ -535,6 +535,9 @@ where
         }
         // matrix of weighted model function values
         let Phi_w = self.model.eval().ok().map(|Phi| &self.weights * Phi);
+        // a weighted basis matrix with NaN or infinite entries cannot be decomposed: the SVD
+        // either panics or never terminates on such input, so treat it like a failed evaluation
+        let Phi_w = Phi_w.filter(|Phi_w| Phi_w.iter().all(|value| value.is_finite()));
 
         // calculate the svd
         let svd_epsilon = self.svd_epsilon;
@@ -674,6 +677,9 @@ where
         }
         // matrix of weighted model function values
         let Phi_w = self.model.eval().ok().map(|Phi| &self.weights * Phi);
+        // a weighted basis matrix with NaN or infinite entries cannot be decomposed: the SVD
+        // either panics or never terminates on such input, so treat it like a failed evaluation
+        let Phi_w = Phi_w.filter(|Phi_w| Phi_w.iter().all(|value| value.is_finite()));
 
         // calculate the svd
         let svd_epsilon = self.svd_epsilon;
